@@ -381,6 +381,70 @@ pub fn solo_process(id: &str, case_file: &Path, cpu_limit_s: u64) -> SoloOutcome
     }
 }
 
+/// Runs the property's scenario step (`extra`) in a child process. Returns the coverage
+/// fields it reported and its violation, if any.
+fn extra_process(id: &str, tier: Tier, seed: u64, scratch: &Path) -> (Value, Option<Violation>) {
+    use std::os::unix::process::CommandExt;
+    use std::os::unix::process::ExitStatusExt;
+    let out_file = scratch.join("extra.json");
+    let _ = std::fs::create_dir_all(scratch);
+    let cpu_limit_s: u64 = env_u64("VERIF_EXTRA_CPU_S", if tier == Tier::Thorough { 4 * 3600 } else { 1500 });
+    let mut cmd = Command::new(exe());
+    cmd.arg("extra").arg(id).arg(tier.name()).arg(seed.to_string()).arg(&out_file).stdout(Stdio::inherit()).stderr(Stdio::null());
+    unsafe {
+        cmd.pre_exec(move || {
+            let cpu = libc::rlimit { rlim_cur: cpu_limit_s, rlim_max: cpu_limit_s + 5 };
+            libc::setrlimit(libc::RLIMIT_CPU, &cpu);
+            Ok(())
+        });
+    }
+    let status = match cmd.status() {
+        Ok(s) => s,
+        Err(e) => return (json!({}), Some(Violation { key: "harness|extra_spawn".into(), detail: e.to_string(), case: Value::Null, trace: vec![] })),
+    };
+    let parsed: Option<Value> = std::fs::read_to_string(&out_file).ok().and_then(|t| serde_json::from_str(&t).ok());
+    if let Some(v) = parsed {
+        let viol = if v["violation"].is_null() {
+            None
+        } else {
+            Some(Violation {
+                key: v["violation"]["key"].as_str().unwrap_or("").to_string(),
+                detail: v["violation"]["detail"].as_str().unwrap_or("").to_string(),
+                case: v["violation"]["case"].clone(),
+                trace: v["violation"]["trace"].as_array().map(|a| a.iter().filter_map(|x| x.as_str().map(|s| s.to_string())).collect()).unwrap_or_default(),
+            })
+        };
+        return (v["coverage"].clone(), viol);
+    }
+    let what = format!("scenario step of {}", id);
+    if let Some(sig) = status.signal() {
+        if sig == libc::SIGXCPU || sig == libc::SIGKILL {
+            return (json!({}), Some(Violation { key: "hang|scenario_step".into(), detail: format!("the {} exceeded {} CPU-seconds running alone (normal cost: seconds)", what, cpu_limit_s), case: json!({"scenario": what}), trace: vec![] }));
+        }
+        return (json!({}), Some(Violation { key: format!("abort|scenario_step|signal {}", sig), detail: format!("the {} was killed by signal {} (stack overflow or allocation failure)", what, sig), case: json!({"scenario": what}), trace: vec![] }));
+    }
+    (json!({}), Some(Violation { key: "harness|extra_no_result".into(), detail: format!("the {} ended with {:?} and no result", what, status.code()), case: Value::Null, trace: vec![] }))
+}
+
+/// `cfbverif extra <ID> <tier> <seed> <out>`: child side of `extra_process`.
+pub fn extra_main(def: &PropDef, tier: Tier, seed: u64, out: &Path) -> i32 {
+    let extra = match def.extra {
+        Some(x) => x,
+        None => return 2,
+    };
+    let ctx = Ctx { id: def.id.to_string(), tier, seed, worker: 0, nworkers: 16, cases: 0, dump_index: None, dump_to: None };
+    let mut ev = json!({"coverage": {}});
+    let viol = extra(&ctx, &mut ev);
+    let v = json!({
+        "coverage": ev["coverage"],
+        "violation": viol.map(|v| json!({"key": v.key, "detail": v.detail, "case": v.case, "trace": v.trace})),
+    });
+    match std::fs::write(out, serde_json::to_string(&v).unwrap_or_default()) {
+        Ok(()) => 0,
+        Err(_) => 2,
+    }
+}
+
 /// `cfbverif solo <ID> <file>`: child side.
 pub fn solo_main(def: &PropDef, file: &Path) -> i32 {
     let text = match std::fs::read_to_string(file) {
@@ -759,9 +823,16 @@ pub fn check_main(def: &PropDef, tier: Tier) -> i32 {
         "wall_s": 0.0,
         "violations": 0,
     });
-    if let Some(extra) = def.extra {
-        let ctx = Ctx { id: def.id.to_string(), tier, seed, worker: 0, nworkers, cases, dump_index: None, dump_to: None };
-        if let Some(v) = extra(&ctx, &mut ev) {
+    if def.extra.is_some() {
+        // the scenario step runs alone in a child process under a CPU limit far above its
+        // normal cost (it is single-threaded and has no other watchdog)
+        let (fields, viol) = extra_process(def.id, tier, seed, &scratch);
+        if let Some(obj) = fields.as_object() {
+            for (k, v) in obj.iter() {
+                ev["coverage"][k] = v.clone();
+            }
+        }
+        if let Some(v) = viol {
             if v.key.starts_with("harness|") {
                 inconclusive.push(format!("{}: {}", v.key, v.detail));
             } else if let Some(w) = known.lookup(def.id, &v.key) {
